@@ -971,6 +971,63 @@ func c02LoaderReuse(c *core.Ctx) {
 			}
 		}
 	}
+	// ResolveRefsIn on a document the caller unmarshalled, by a Loader whose last load failed at a reference of the same
+	// text: the reference exists in the new document and must be resolved (or the call must fail), never left open
+	for _, e1 := range []string{"LoadFromData", "LoadFromDataWithPath", "LoadFromFile", "ResolveRefsIn"} {
+		desc := fmt.Sprintf("ResolveRefsIn after a failed %s of a document with the same reference text", e1)
+		c.Begin(desc)
+		badDoc := gen.S{"openapi": "3.0.3", "info": gen.S{"title": "t", "version": "1"}, "paths": gen.S{}, "components": gen.S{"schemas": gen.S{"A": gen.S{"$ref": "#/components/schemas/Missing"}}}}
+		goodDoc := gen.S{"openapi": "3.0.3", "info": gen.S{"title": "t", "version": "1"}, "paths": gen.S{}, "components": gen.S{"schemas": gen.S{"A": gen.S{"$ref": "#/components/schemas/Missing"}, "Missing": gen.S{"type": "string", "title": "MARKGOOD"}}}}
+		files := map[string]string{"w/bad.json": mustJSON(badDoc), "v/good.json": mustJSON(goodDoc)}
+		rd := &c02reader{files: files, limit: 100}
+		l := openapi3.NewLoader()
+		l.IsExternalRefsAllowed = true
+		l.ReadFromURIFunc = rd.fn()
+		var err1, err2 error
+		var d openapi3.T
+		c.Eval()
+		pi := core.Guard(func() {
+			switch e1 {
+			case "LoadFromData":
+				_, err1 = l.LoadFromData([]byte(files["w/bad.json"]))
+			case "LoadFromDataWithPath":
+				_, err1 = l.LoadFromDataWithPath([]byte(files["w/bad.json"]), &url.URL{Path: "w/bad.json"})
+			case "LoadFromFile":
+				_, err1 = l.LoadFromFile("w/bad.json")
+			default:
+				var b openapi3.T
+				if err1 = json.Unmarshal([]byte(files["w/bad.json"]), &b); err1 == nil {
+					err1 = l.ResolveRefsIn(&b, &url.URL{Path: "w/bad.json"})
+				}
+			}
+			if err2 = json.Unmarshal([]byte(files["v/good.json"]), &d); err2 == nil {
+				err2 = l.ResolveRefsIn(&d, &url.URL{Path: "v/good.json"})
+			}
+		})
+		w := c02Witness{Entry: e1 + " then ResolveRefsIn", Root: "v/good.json", Files: files}
+		if pi != nil {
+			c.Violate(core.PanicFeatures(pi), w, desc+"\n"+pi.Value+"\n"+core.Truncate(pi.Stack, 2000))
+			continue
+		}
+		c.Distinct(desc)
+		c.Cover("loader_reuse", "ResolveRefsIn-after-failed-"+e1)
+		feat := func(kind string) map[string]string {
+			return map[string]string{"kind": kind, "shape": "loader-reused-after-failed-load", "position": "components.schemas.A", "entry": "ResolveRefsIn", "first_entry": e1}
+		}
+		if err1 == nil {
+			c.Violate(feat("bad_reference_loaded"), w, desc+"\nthe first document (a reference to a missing schema) loaded without error")
+			continue
+		}
+		if err2 != nil {
+			continue // refusing is allowed; leaving the reference open is not
+		}
+		if a := d.Components.Schemas["A"]; a == nil || a.Value == nil {
+			c.Violate(feat("unresolved_after_successful_load"), w, desc+"\ncomponents.schemas.A was left unresolved and no error was returned")
+		} else if a.Value.Title != "MARKGOOD" {
+			w.Got, w.Want = a.Value.Title, "MARKGOOD"
+			c.Violate(feat("resolved_to_wrong_object"), w, desc)
+		}
+	}
 	// the SAME location loaded again by the same Loader after the file was repaired: the first attempt failed (not a document
 	// at all, or a reference to nothing), so there is nothing of it to hand out
 	k := kinds[0]
